@@ -79,6 +79,8 @@ class Engine:
         self._claim_keys = set()
         self.limits = []  # (decisions, message)
         self.inputs = {}  # name -> z3 const (declaration order)
+        self.mc_states = set()
+        self.mc_transitions = set()
         self.observations = []  # per path: (decisions, pc-model-able dict)
         self.path_samples = []
         self.active = False
@@ -364,6 +366,14 @@ class Engine:
         self._claim_keys.add(key)
         model = self._model_dict(s.model()) if r == z3.sat else None
         self.claims.append(Claim("twin:" + name, {"sat": "reached", "unsat": "unreachable"}.get(str(r), "unknown"), 0.0, model, key=key))
+
+    def step(self, label):
+        """Record one transition of a state-machine harness (operation applied on the
+        current symbolic state = decision prefix)."""
+        prefix = tuple(self.decisions[: self.pos])
+        self.mc_states.add(prefix)
+        self.mc_transitions.add((prefix, label, self._occ.get(("step", label), 0)))
+        self._occ[("step", label)] = self._occ.get(("step", label), 0) + 1
 
     def observe(self, name, value):
         """Record an observable for the concretisation cross-check."""
